@@ -24,6 +24,12 @@ pub struct C13;
 fn py_init() {
     static ONCE: std::sync::Once = std::sync::Once::new();
     ONCE.call_once(|| {
+        // the interpreter linked in is the system one (PYO3_PYTHON in
+        // .cargo/config.toml); make it find its own standard library whatever
+        // `python3` is first on PATH
+        if std::env::var_os("PYTHONHOME").is_none() && std::path::Path::new("/usr/lib/python3.11/os.py").exists() {
+            std::env::set_var("PYTHONHOME", "/usr");
+        }
         pyo3::prepare_freethreaded_python();
     });
 }
